@@ -2,6 +2,7 @@ package accounts
 
 import (
 	"fmt"
+	"sync"
 
 	"github.com/casbin/casbin/v2"
 )
@@ -9,10 +10,14 @@ import (
 type CasbinAccess struct {
 	Model     string
 	Policy    string
+	mu        sync.Mutex
 	encforcer *casbin.Enforcer
 }
 
-func (ce *CasbinAccess) init() {
+// init loads the enforcer on first use; requests run concurrently
+func (ce *CasbinAccess) init() *casbin.Enforcer {
+	ce.mu.Lock()
+	defer ce.mu.Unlock()
 	if ce.encforcer == nil {
 		if e, err := casbin.NewEnforcer(ce.Model, ce.Policy); err == nil {
 			ce.encforcer = e
@@ -20,12 +25,16 @@ func (ce *CasbinAccess) init() {
 			fmt.Printf("Casbin Error: %s", err)
 		}
 	}
+	return ce.encforcer
 }
 
 func (ce *CasbinAccess) Enforce(user string, graph string, operation Operation) error {
-	ce.init()
+	encforcer := ce.init()
+	if encforcer == nil {
+		return fmt.Errorf("action restricted")
+	}
 	fmt.Printf("Casbin request '%s' '%s' '%s'\n", user, graph, operation)
-	if res, err := ce.encforcer.Enforce(user, graph, string(operation)); res {
+	if res, err := encforcer.Enforce(user, graph, string(operation)); res {
 		return nil
 	} else if err != nil {
 		fmt.Printf("casbin error: %s\n", err)
